@@ -32,7 +32,7 @@ func smallCfg(t *rapid.T, legacy bool) gen.AsmConfig {
 	if l*2 > m {
 		l = m / 2
 	}
-	return gen.AsmConfig{Legacy: legacy, CoreSize: m, Length: l, Distance: l, Processes: 8}
+	return gen.AsmConfig{Legacy: legacy, NOP94: !legacy && l%2 == 0, CoreSize: m, Length: l, Distance: l, Processes: 8}
 }
 
 func genAcceptCase(t *rapid.T) acceptCase {
